@@ -79,17 +79,29 @@ func (s *SessionStore) Clear(rw http.ResponseWriter, req *http.Request) error {
 		}
 	}
 
-	// Session cookies already set on this response (a session refreshed while
-	// handling this very request) must not survive the clear either.
-	for _, line := range append([]string{}, rw.Header()["Set-Cookie"]...) {
+	// Session cookies already set on this response (a session refreshed, or
+	// re-saved before its validation failed, while handling this very request)
+	// must not survive the clear either: they are withdrawn from the response,
+	// so that the session that is being cleared is not handed out once more
+	// with a fresh timestamp, and expired in case the browser holds them.
+	queued := rw.Header()["Set-Cookie"]
+	kept := make([]string, 0, len(queued))
+	var withdrawn []string
+	for _, line := range queued {
 		c, err := http.ParseSetCookie(line)
 		if err != nil || c.MaxAge < 0 || !isSessionCookieName(s.Cookie.Name, c.Name) {
+			kept = append(kept, line)
 			continue
 		}
-		if _, err := req.Cookie(c.Name); err == nil {
-			continue // presented by the request: cleared above
+		if _, err := req.Cookie(c.Name); err != nil {
+			withdrawn = append(withdrawn, c.Name) // not presented by the request: not cleared above
 		}
-		http.SetCookie(rw, s.makeCookie(req, c.Name, "", time.Hour*-1))
+	}
+	if len(kept) != len(queued) {
+		rw.Header()["Set-Cookie"] = kept
+	}
+	for _, name := range withdrawn {
+		http.SetCookie(rw, s.makeCookie(req, name, "", time.Hour*-1))
 	}
 
 	return nil
